@@ -308,6 +308,10 @@ let on_call (case : string) (cmd : string) (f : string) (a : sx list) =
     (match pre_ with
      | "vclock" -> c10_call fn a
      | "ident" -> c14_call fn a
+     | "serde" when fn = "op" ->
+         (match a with
+          | [_; o; r] -> count "C19"; if r <> A "ok" then report "C19" ("op does not survive the serde_json round trip (" ^ atom r ^ "): " ^ String.sub (show_sx o) 0 (min 200 (String.length (show_sx o))))
+          | _ -> ())
      | "serde" -> if not !tainted then serde_call a
      | _ -> ());
     if not !tainted && discipline_ok () then begin generic_call pre_ fn a; ctx_call pre_ fn a end
